@@ -42,7 +42,7 @@ CASE_TIMEOUT = 420
 WALL = {"quick": 160, "thorough": 1500}
 INTERNAL_ERROR = "I'm sorry, an internal error has occurred."  # v1 runtime.py:370, v2 runtime.py:270
 RULE = (
-    "one case = configuration (v1 ~70% / v2 ~30%; 1-3 ordered input rails and 1-2 ordered output rails from {check, rewrite(v1), "
+    "one case = configuration (v1 ~80% / v2 ~20% in the quick tier, 2:1 in the thorough tier; 1-3 ordered input rails and 1-2 ordered output rails from {check, rewrite(v1), "
     "block-or-rewrite(v1), shipped self check}; dialog rails on/off/(v2) llm continuation; enable_rails_exceptions on/off; v2 rails in "
     "config.yml or hand-written; v1 retrieval rail 0/1; a custom dialog action on route act_llm) x conversation of 2-3 turns "
     "(route and accept|reject|rewrite verdict per (rail, turn)) x ALL fault plans of that conversation: prop runs the conversation "
@@ -65,7 +65,7 @@ ASSUMPTIONS = [
 
 
 def budget(tier):
-    return 320 if tier == "quick" else 1400
+    return 224 if tier == "quick" else 1400
 
 
 # ------------------------------------------------------------------------------------------------
@@ -91,8 +91,39 @@ def _sub(case, plan):
     return {"config": case["config"], "turns": case["turns"], "api": case.get("api", "sync"), "plan": [list(s) for s in plan]}
 
 
-def _run(case, plan, fresh=False):
-    return pipeline.run_conversation(_sub(case, plan), fresh=fresh, session_cls=FaultSession)
+def _run(case, plan, fresh=False, dry=None):
+    """Runs the conversation with `plan` (like pipeline.run_conversation, plus a snapshot of the caller-side state after every
+    turn).  Colang 2.x only, reused instance only: when `dry` is given the turns before the first planned fault are not
+    executed again - the run starts from the `state` value the dry run got back before that turn (the state is a
+    self-contained JSON document and everything up to that point is the same deterministic computation); the observations of
+    the skipped turns are the dry run's.  Colang 1.0 keeps its history in the instance's events cache, so it always re-runs
+    the whole conversation; confirmation runs on fresh instances always run everything."""
+    sub = _sub(case, plan)
+    try:
+        p = pipeline.get_pipeline(sub["config"], fresh=fresh)
+        s = p.new_session(sub, FaultSession)
+        n = len(sub["turns"])
+        t0 = 0
+        if dry is not None and plan and not fresh and p.v == 2:
+            t0 = min(int(site[1]) for site in plan)
+            if not 0 <= t0 < n:
+                t0 = 0
+        turns = []
+        if t0:
+            s.state = dry.snapshots[t0 - 1]["state"]
+            s.messages = list(dry.snapshots[t0 - 1]["messages"])
+            turns = list(dry.turns[:t0])
+        snapshots = [None] * t0
+        for t in range(t0, n):
+            turns.append(p.turn(s, t))
+            snapshots.append({"state": s.state, "messages": list(s.messages)})
+        obs = pipeline.Observations(sub, s, turns, p)
+        obs.snapshots = snapshots
+        obs.executed = n - t0
+        return obs
+    except BaseException:
+        pipeline.reset_runtime()
+        raise
 
 
 def _sites(dry):
@@ -128,7 +159,7 @@ USER_TAILS = ["how is the weather", "tell me a joke", "what is the status", "hel
 
 @st.composite
 def _case(draw, tier):
-    v = draw(st.sampled_from([1, 1, 1, 1, 1, 2, 2]))
+    v = draw(st.sampled_from([1, 1, 1, 1, 2] if tier == "quick" else [1, 1, 2]))
     ins = draw(pipeline.st_rail_kinds(v, 1, 3, "in"))
     outs = draw(pipeline.st_rail_kinds(v, 1, 2, "out"))
     if v == 1:
@@ -141,7 +172,7 @@ def _case(draw, tier):
     if "act_llm" in routes:
         routes += ["act_llm"] * 3  # the custom dialog action is one of the three site classes
     turns = []
-    for t in range(draw(st.sampled_from([2, 3, 3]))):
+    for t in range(draw(st.sampled_from([2, 3, 3] if (v == 1 or tier != "quick") else [2, 2, 3]))):
         turns.append(
             {
                 "user": f"{fakes.mk_user(t)} {draw(st.sampled_from(USER_TAILS))}",
@@ -218,7 +249,7 @@ def _stale_context_signature(cfg, d_turn, f_turn):
     if cfg["v"] != 1:
         return False
     got, want = _rail_sig(f_turn), _rail_sig(d_turn)
-    if not got or len(got) >= len(want) or got != want[: len(got)]:
+    if not got or got != want[: len(got)]:
         return False
     last = f_turn["trace"][-1]
     if last["cat"] not in ("in", "out") or last.get("verdict") != "accept":
@@ -273,12 +304,15 @@ def _judge(case, dry, obs, plan):
                 # signature of C03-F17: after a failed retrieval-rail action the turn ends in the internal-error message
                 # although nothing failed in it (the shipped retrieve_relevant_chunks raises on `$relevant_chunks = None`)
                 chunks_none = bool(v == 1 and "retrieval-rail" in classes_hit and INTERNAL_ERROR in text and not stale)
-                kind = "later-turn-refused-after-fault" if stale else ("later-turn-rails-differ" if _rail_sig(o) != _rail_sig(d) else "later-turn-reply-differs")
+                # signature of C03-F18: Colang 2.x `llm continuation` + rail exceptions: the aborted `_bot_say` never finishes,
+                # `$bot_talking_state` stays True and every later user utterance is ignored (no LLM call, empty reply)
+                silent = bool(v == 2 and cfg["dialog"] == "llmc" and cfg["exc"] and "output-rail" in classes_hit and not text.strip() and not o["llm"] and not excs)
+                kind = "later-turn-refused-after-fault" if stale else "later-turn-ignored-after-fault" if silent else ("later-turn-rails-differ" if _rail_sig(o) != _rail_sig(d) else "later-turn-reply-differs")
                 raise Violation(
                     kind,
                     f"{what} (no fault in this turn, faults hit turn(s) {faulted_turns}): rail trace {_rail_sig(o)} reply {_norm_reply(o)!r}; "
                     f"the fault-free conversation has rail trace {_rail_sig(d)} reply {_norm_reply(d)!r} in this turn"[:900],
-                    _detail(cfg, plan, t, stale_context=stale, internal_error_after_retrieval_fault=chunks_none, faulted_turns=list(faulted_turns)),
+                    _detail(cfg, plan, t, stale_context=stale, internal_error_after_retrieval_fault=chunks_none, bot_talking_state_stuck=silent, faulted_turns=list(faulted_turns)),
                 )
             continue
 
@@ -422,7 +456,7 @@ def prop(case):
     nt = False
     views = []
     for plan in plans:
-        obs = _run(case, plan)
+        obs = _run(case, plan, dry=dry)
         try:
             info = _judge(case, dry, obs, plan)
         except Violation as first:
@@ -436,7 +470,7 @@ def prop(case):
         counters["plans"] += 1
         counters["plans.single" if len(plan) == 1 else "plans.pair"] += 1
         counters["runs"] += 1
-        counters["turns-executed"] += len(case["turns"])
+        counters["turns-executed"] += obs.executed
         for k, n in info["counters"].items():
             counters[k] = counters.get(k, 0) + n
         labels |= info["labels"]
@@ -464,4 +498,9 @@ def known(case, violation):
     # `retrieve_relevant_chunks` then raises (None + "\n") in every later turn, which is answered with the internal-error message.
     if violation.kind in ("later-turn-rails-differ", "later-turn-reply-differs") and d.get("v") == 1 and d.get("internal_error_after_retrieval_fault"):
         return "C03-F17"
+    # C03-F18 (Colang 2.x, `llm continuation`, enable_rails_exceptions): an output rail that blocks (or whose action fails) aborts
+    # `_bot_say`; core.co `tracking bot talking state` waits for `bot said something` only, `$bot_talking_state` stays True and
+    # `generating user intent for unhandled user utterance` aborts on every later utterance.  (A plain rejection does the same.)
+    if violation.kind == "later-turn-ignored-after-fault" and d.get("v") == 2 and d.get("bot_talking_state_stuck"):
+        return "C03-F18"
     return None
